@@ -696,3 +696,89 @@ def run(ctx) -> None:  # noqa: F811
     _inner_run_c07c(ctx)
     if pending is not None:
         raise pending
+
+
+# ---- added after the seeded change C07-r7seed2: detection at an exit plane leaves the propagated waves untouched
+_inner_run_c07d = run
+
+
+def _detect_pure(ctx) -> None:
+    from ..rules import detectpure
+
+    repo = ctx.repo
+    um = repo.function(MS, UPDATE)
+    base = repo.cls("abtem.detectors", "BaseDetector")
+    wcls = repo.cls("abtem.waves", "Waves")
+    # premise 1: the series records `<detector>.detect(<the wave it was handed>)`
+    wpar = um.positional_params[0]
+    dcalls = [c for c in walk_no_nested(um.node) if isinstance(c, ast.Call) and isinstance(c.func, ast.Attribute)
+              and len(c.args) == 1 and dotted(c.args[0]) == wpar]
+    ctx.require(len(dcalls) >= 1, f"{um.qualname}: no `<detector>.<method>(waves)` call found")
+    entry = {c.func.attr for c in dcalls}
+    ctx.require(len(entry) == 1, f"{um.qualname}: several detector methods receive the waves")
+    entry_name = entry.pop()
+    # premise 2: that method evaluates the transform through <waves>.apply_transform(self) -> _calculate_new_array
+    bd = base.find_method(entry_name)
+    ctx.require(bd is not None, f"BaseDetector has no {entry_name}")
+    reach, todo = [], [bd]
+    while todo:
+        m = todo.pop()
+        if m in reach:
+            continue
+        reach.append(m)
+        for c in walk_no_nested(m.node):
+            if isinstance(c, ast.Call) and (dotted(c.func) or "").startswith("self.") and base.find_method(c.func.attr):
+                todo.append(base.find_method(c.func.attr))
+    handoff = [c for m in reach for c in walk_no_nested(m.node) if isinstance(c, ast.Call) and isinstance(
+        c.func, ast.Attribute) and wcls.find_method(c.func.attr) is not None and len(c.args) >= 1 and dotted(
+        c.args[0]) == "self" and isinstance(c.func.value, ast.Name) and c.func.value.id in m.params]
+    ctx.require(len(handoff) == 1, f"BaseDetector.{entry_name}: the hand-off `<waves>.apply_transform(self)` was not found")
+    boundary = handoff[0].func.attr
+    kernel = "_calculate_new_array"
+    dets = [c for c in repo.all_classes() if base in c.mro()]
+    entries = []
+    for c in dets:
+        for name in (entry_name, kernel):
+            for m in c.methods.get(name, []):
+                if not m.is_abstract and len(m.positional_params) >= 2:
+                    entries.append(m)
+    ctx.require(sum(1 for m in entries if m.name == kernel) >= 4, "detector kernels (_calculate_new_array) not found")
+    pur = detectpure.Purity(repo, wcls, boundary=(boundary,))
+    for m in entries:
+        pur.analyse(m, {m.positional_params[1]: detectpure.W}, {}, ())
+    for key, fd in sorted(pur.findings.items()):
+        via = " <- ".join(reversed(fd.chain[-3:])) if fd.chain else "the detector"
+        ctx.violation("R-DETECTPURE", f"{fd.func.qualname}:{fd.text}", fd.func.loc(fd.node),
+                      f"{fd.why}; reached from {via}. multislice_and_detect detects at every exit plane and keeps "
+                      "propagating the same waves, so every exit plane after the first is computed from a destroyed "
+                      "wave function and differs from the truncated simulation", key_detail=fd.kind)
+    bad = {(k[0], k[2]) for k in pur.findings}
+    nflag = 0
+    for key, (f, node, txt) in sorted(pur.examined.items(), key=lambda kv: (kv[0][0], kv[0][1], str(kv[0][2]))):
+        if key[2] != "flag":
+            continue
+        nflag += 1
+        if (f.qualname, txt) not in bad:
+            ctx.ok("R-DETECTPURE", f"{f.qualname}:{txt}", f.loc(node),
+                   "the flag is false on every path on which the array is still the one the wave object holds")
+    ctx.require(nflag >= 1, "R-DETECTPURE: no in-place capable call on the array of the detected waves was examined")
+    ctx.extra["detectpure_entries"] = sorted(m.qualname for m in entries)
+    ctx.extra["detectpure_external_callees"] = sorted(pur.external)
+
+
+def run(ctx) -> None:  # noqa: F811
+    from ..rules import deferred
+
+    ctx.rule("R-DETECTPURE", "detection is pure: nothing reached from <detector>.detect(waves) — the detector kernels "
+             "_calculate_new_array of every detector class, the methods of the wave class they call on the waves "
+             "(diffraction_patterns, intensity, ensure_real_space ...) and the package functions that receive the "
+             "array of the waves — writes the array the wave object holds: no `op=`, subscript store, out=, mutator "
+             "method on it, and no call of an in-place capable routine (a parameter overwrite_x / in_place / "
+             "overwrite) with that array unless the flag is false on every path on which the array is still the "
+             "receiver's (the flag is evaluated per path in three-valued logic; arithmetic, copies and allocators end "
+             "the ownership, views and functions that may return their argument keep it). multislice_and_detect "
+             "hands the same waves to the detectors at every exit plane and propagates them further, so a write "
+             "makes every later exit plane differ from the truncated simulation")
+    ctx.assume("C38 R-INPLACE / R-FLAG: an FFT routine with an overwrite flag writes its array argument only when the "
+               "flag is true")
+    deferred.run(ctx, lambda: _detect_pure(ctx), _inner_run_c07d)
